@@ -615,6 +615,52 @@ def np_vdot(ip, args, kwargs):
     return r
 
 
+def np_cumsum(ip, args, kwargs):
+    """numpy.cumsum of a flat sequence of numbers: the running sums, as a 1-d array"""
+    if kwargs or len(args) != 1:
+        raise Unsupported("numpy.cumsum with axis/dtype/out")
+    items = ip.iterate(args[0])
+    if not all(isinstance(x, NUM) for x in items):
+        raise Unsupported("numpy.cumsum of a nested sequence")
+    out, r = [], 0
+    for x in items:
+        r = sym.add(r, x)
+        out.append(r)
+    return CoefArr(out)
+
+
+def _bisect(right):
+    """bisect.bisect_right / bisect_left as CPython's Lib/bisect.py runs them: the binary search
+    itself (so an unsorted list gives what CPython gives), each comparison a decision of the
+    explored path"""
+    def f(ip, args, kwargs):
+        if kwargs.get('key') is not None:
+            raise Unsupported("bisect with key=")
+        a, x = ip.iterate(args[0]), args[1]
+        lo = args[2] if len(args) > 2 else kwargs.get('lo', 0)
+        hi = args[3] if len(args) > 3 else kwargs.get('hi', None)
+        if not isinstance(lo, int) or not (hi is None or isinstance(hi, int)):
+            raise Unsupported("bisect with symbolic lo/hi")
+        if lo < 0:
+            ip.raise_py('ValueError', 'lo must be non-negative')
+        if hi is None:
+            hi = len(a)
+        while lo < hi:
+            mid = (lo + hi) // 2
+            if ip.branch(sym.lt(x, a[mid]) if right else sym.lt(a[mid], x)):
+                if right:
+                    hi = mid
+                else:
+                    lo = mid + 1
+            else:
+                if right:
+                    lo = mid + 1
+                else:
+                    hi = mid
+        return lo
+    return f
+
+
 def np_array(ip, args, kwargs):
     v = args[0]
     items = ip.iterate(v)
@@ -733,6 +779,7 @@ def make_numpy(ip):
     ns['clip'] = I.Builtin('clip', np_clip)
     ns['interp'] = I.Builtin('interp', np_interp)
     ns['array'] = I.Builtin('array', np_array)
+    ns['cumsum'] = I.Builtin('cumsum', np_cumsum)
     ns['identity'] = I.Builtin('identity', np_identity)
     ns['eye'] = I.Builtin('eye', np_identity)
     ns['matmul'] = I.Builtin('matmul', np_matmul)
@@ -849,6 +896,9 @@ def import_module(ip, name):
         return I.Namespace(name, {'quad': I.Builtin('quad', lambda ip, a, k: ip.call(ip.quad_model, a, k))})
     if name == 'sys':
         return I.Namespace('sys', {'platform': 'linux'})
+    if name == 'bisect':
+        r, l = I.Builtin('bisect_right', _bisect(True)), I.Builtin('bisect_left', _bisect(False))
+        return I.Namespace('bisect', {'bisect': r, 'bisect_right': r, 'bisect_left': l})
     if name in ('xml.etree.ElementTree', 'xml.etree', 'xml'):
         return etree_namespace(ip)
     return I.Opaque(name)
@@ -1134,7 +1184,13 @@ class SymSet(object):
 
 
 def hash_eq(ip, a, b):
-    return ip.truth(ip.py_eq(a.v, b.v))
+    """hash(x) == hash(y): implied by x == y, but not the other way round - hashes collide
+    (in CPython hash(-1) == hash(-2)).  Unequal values get an unconstrained answer."""
+    e = ip.truth(ip.py_eq(a.v, b.v))
+    if e is True:
+        return True
+    coll = ip.ctx.fresh_bool('hash_collision')
+    return sym.Or(e, coll)
 
 
 # ------------------------------------------------------------------ attribute access on builtin values
